@@ -66,13 +66,13 @@ PROPS = {
     },
     "C12": {
         "pkg": "session", "level": "exploration",
-        "quick": {"stages": [st("^TestC12Session", 500), st("^TestC12LongLivedRelay", 12, shards=3), st("^TestC12FanOut", 40, shards=2), st("^TestC12SlowReader", 2), st("^TestC12Regress", 1)]},
-        "thorough": {"stages": [st("^TestC12Session", 6000, shards=12, timeout=3000), st("^TestC12Session", 800, shards=4, race=True, timeout=3000), st("^TestC12LongLivedRelay", 300, shards=4, timeout=3000), st("^TestC12FanOut", 1500, shards=4, timeout=3000), st("^TestC12FanOut", 100, shards=2, race=True, timeout=3000), st("^TestC12SlowReader", 12, shards=3, timeout=3000), st("^TestC12Regress", 1)]},
+        "quick": {"stages": [st("^TestC12Session", 500), st("^TestC12LongLivedRelay", 12, shards=3), st("^TestC12FanOut", 40, shards=2), st("^TestC12SlowReader", 2), st("^TestC12CloseAfterBurst", 100, shards=2), st("^TestC12Regress", 1)]},
+        "thorough": {"stages": [st("^TestC12Session", 6000, shards=12, timeout=3000), st("^TestC12Session", 800, shards=4, race=True, timeout=3000), st("^TestC12LongLivedRelay", 300, shards=4, timeout=3000), st("^TestC12FanOut", 1500, shards=4, timeout=3000), st("^TestC12FanOut", 100, shards=2, race=True, timeout=3000), st("^TestC12SlowReader", 12, shards=3, timeout=3000), st("^TestC12CloseAfterBurst", 4000, shards=4, timeout=3000), st("^TestC12Regress", 1)]},
     },
     "C13": {
         "pkg": "session", "level": "exploration",
-        "quick": {"stages": [st("^TestC13Termination", 600), st("^TestC13WebSocketSend", 3, shrinktime="40s"), st("^TestC13WebSocketCancel", 4, shrinktime="40s"), st("^TestC13RouterInboundClose", 150), st("^TestC13SQLiteBlockedInserter", 6), st("^TestC13LargeAnswerCut", 120, shards=2), st("^TestC13RouterManySessions", 12), st("^TestC13WebSocketIdlePing", 40)]},
-        "thorough": {"stages": [st("^TestC13Termination", 15000, shards=10, timeout=3000), st("^TestC13Termination", 2000, shards=2, race=True, timeout=3000), st("^TestC13WebSocketSend", 20, shards=1, shrinktime="60s"), st("^TestC13WebSocketCancel", 30, shards=1, shrinktime="60s"), st("^TestC13RouterInboundClose", 3000, shards=2), st("^TestC13SQLiteBlockedInserter", 60, shards=1), st("^TestC13LargeAnswerCut", 3000, shards=4, timeout=3000), st("^TestC13RouterManySessions", 300, shards=2, timeout=3000), st("^TestC13WebSocketIdlePing", 1500, shards=3, timeout=3000)]},
+        "quick": {"stages": [st("^TestC13Termination", 600), st("^TestC13WebSocketSend", 3, shrinktime="40s"), st("^TestC13WebSocketCancel", 4, shrinktime="40s"), st("^TestC13RouterInboundClose", 150), st("^TestC13SQLiteBlockedInserter", 6), st("^TestC13LargeAnswerCut", 120, shards=2), st("^TestC13RouterManySessions", 12), st("^TestC13WebSocketIdlePing", 40), st("^TestC13WebSocketFloodingPeer", 3)]},
+        "thorough": {"stages": [st("^TestC13Termination", 15000, shards=10, timeout=3000), st("^TestC13Termination", 2000, shards=2, race=True, timeout=3000), st("^TestC13WebSocketSend", 20, shards=1, shrinktime="60s"), st("^TestC13WebSocketCancel", 30, shards=1, shrinktime="60s"), st("^TestC13RouterInboundClose", 3000, shards=2), st("^TestC13SQLiteBlockedInserter", 60, shards=1), st("^TestC13LargeAnswerCut", 3000, shards=4, timeout=3000), st("^TestC13RouterManySessions", 300, shards=2, timeout=3000), st("^TestC13WebSocketIdlePing", 1500, shards=3, timeout=3000), st("^TestC13WebSocketFloodingPeer", 30, shards=3, timeout=3000)]},
     },
     "C20": {
         "pkg": "core", "level": "exploration",
@@ -86,8 +86,8 @@ PROPS = {
     },
     "C07": {
         "pkg": "handlers", "level": "exploration",
-        "quick": {"stages": [st("^TestC07Sequential", 600), st("^TestC07Concurrent", 600), st("^TestC07Backpressure", 150), st("^TestC07Churn", 12), st("^TestC07BacklogSiblingClose", 60, shards=3), st("^TestC07Scale", 12, shards=4), st("^TestC07SimultaneousPublishers", 24, shards=3), st("^TestC07(Concurrent|SimultaneousPublishers)", 40, race=True)]},
-        "thorough": {"stages": [st("^TestC07Sequential", 10000, shards=6, timeout=3000), st("^TestC07Concurrent", 12000, shards=5, timeout=3000), st("^TestC07Concurrent", 2500, shards=2, race=True, timeout=3000), st("^TestC07Backpressure", 1500, shards=3, timeout=3000), st("^TestC07Churn", 150, shards=2, timeout=3000), st("^TestC07Churn", 40, shards=1, race=True, timeout=3000), st("^TestC07BacklogSiblingClose", 1500, shards=6, timeout=3000), st("^TestC07Scale", 300, shards=6, timeout=3000), st("^TestC07SimultaneousPublishers", 600, shards=6, timeout=3000)]},
+        "quick": {"stages": [st("^TestC07Sequential", 600), st("^TestC07Concurrent", 600), st("^TestC07Backpressure", 150), st("^TestC07Churn", 12), st("^TestC07BacklogSiblingClose", 60, shards=3), st("^TestC07Scale", 12, shards=4), st("^TestC07SimultaneousPublishers", 24, shards=3), st("^TestC07FireAndForget", 60, shards=2), st("^TestC07SameRemoteAddr", 40, pkg="session"), st("^TestC07(Concurrent|SimultaneousPublishers)", 40, race=True)]},
+        "thorough": {"stages": [st("^TestC07Sequential", 10000, shards=6, timeout=3000), st("^TestC07Concurrent", 12000, shards=5, timeout=3000), st("^TestC07Concurrent", 2500, shards=2, race=True, timeout=3000), st("^TestC07Backpressure", 1500, shards=3, timeout=3000), st("^TestC07Churn", 150, shards=2, timeout=3000), st("^TestC07Churn", 40, shards=1, race=True, timeout=3000), st("^TestC07BacklogSiblingClose", 1500, shards=6, timeout=3000), st("^TestC07Scale", 300, shards=6, timeout=3000), st("^TestC07SimultaneousPublishers", 600, shards=6, timeout=3000), st("^TestC07FireAndForget", 3000, shards=4, timeout=3000), st("^TestC07SameRemoteAddr", 1500, shards=3, pkg="session", timeout=3000)]},
     },
     "C15": {
         "pkg": "core", "level": "exploration",
